@@ -156,7 +156,7 @@ func c20(c *Ctx) {
 				if fa, ok := ref.(*ssa.FieldAddr); ok {
 					for _, r2 := range *fa.Referrers() {
 						if st, ok := r2.(*ssa.Store); ok && st.Addr == fa {
-							vals[fieldVar(fa.X.Type(), fa.Field).Name()] = st.Val
+							vals[fieldVar(fa.X.Type(), fa.Field).Name()] = resolveLocal(st.Val)
 						}
 					}
 				}
@@ -180,7 +180,7 @@ func c20(c *Ctx) {
 					sameStart++
 				}
 				if bo, ok := v.(*ssa.BinOp); ok && bo.Op == token.ADD {
-					x, y := bo.X, bo.Y
+					x, y := resolveLocal(bo.X), resolveLocal(bo.Y)
 					if y != start {
 						x, y = y, x
 					}
@@ -207,7 +207,7 @@ func c20(c *Ctx) {
 			okScan := false
 			for _, f := range stubFns {
 				for _, cs := range callsTo(f, qual("internal/bytecode", "GetFuncSize")) {
-					if callCommon(cs).Args[1] == start {
+					if resolveLocal(callCommon(cs).Args[1]) == start {
 						okScan = true
 					}
 				}
@@ -428,13 +428,40 @@ func slicePtrDependsOn(v ssa.Value, isT func(ssa.Value) bool) bool {
 	if !ok {
 		return false
 	}
-	for _, ref := range *a.Referrers() {
-		if fa, ok := ref.(*ssa.FieldAddr); ok {
-			fv := fieldVar(fa.X.Type(), fa.Field)
-			if fv != nil && fv.Name() == "Data" {
-				for _, r2 := range *fa.Referrers() {
-					if st, ok := r2.(*ssa.Store); ok && dependsOn(st.Val, isT) {
-						return true
+	// the allocation itself, or any reinterpretation of its address (unsafe.Pointer / *SliceHeader conversions), may be the
+	// object whose Data word is stored
+	seen := map[ssa.Value]bool{}
+	var views []ssa.Value
+	var addViews func(x ssa.Value)
+	addViews = func(x ssa.Value) {
+		if seen[x] {
+			return
+		}
+		seen[x] = true
+		views = append(views, x)
+		refs := x.Referrers()
+		if refs == nil {
+			return
+		}
+		for _, ref := range *refs {
+			switch r := ref.(type) {
+			case *ssa.Convert:
+				addViews(r)
+			case *ssa.ChangeType:
+				addViews(r)
+			}
+		}
+	}
+	addViews(a)
+	for _, view := range views {
+		for _, ref := range *view.Referrers() {
+			if fa, ok := ref.(*ssa.FieldAddr); ok {
+				fv := fieldVar(fa.X.Type(), fa.Field)
+				if fv != nil && fv.Name() == "Data" {
+					for _, r2 := range *fa.Referrers() {
+						if st, ok := r2.(*ssa.Store); ok && dependsOn(st.Val, isT) {
+							return true
+						}
 					}
 				}
 			}
